@@ -186,10 +186,19 @@ func (g GroupedPoints) SetValue(v reflect.Value) error {
 		if keyK := t.Key().Kind(); keyK != reflect.String {
 			return fmt.Errorf("cannot set map keyed by %v", keyK)
 		}
-		if len(g.Points) > maxStructureSize {
+		// only live points become map entries (a diff of two maps within
+		// the limit can carry up to twice as many points: one tombstone
+		// per removed entry, one live point per added entry)
+		live := 0
+		for _, p := range g.Points {
+			if p.Tombstone%2 == 0 {
+				live++
+			}
+		}
+		if live > maxStructureSize {
 			return fmt.Errorf(
 				"number of points %v exceeds maximum of %v for a map",
-				len(g.Points), maxStructureSize,
+				live, maxStructureSize,
 			)
 		}
 		// Ensure points are keyed
